@@ -147,6 +147,9 @@ class Ctx:
         import CircuitCalculator.Network.loaders as ld
         dl.open = self.disk.open
         ld.open = self.disk.open
+        from .simfs import GlobalFS
+        self.disk.mtime_mode = self.cfg.get("mtime_mode", "fine")
+        GlobalFS(self.disk).install()      # the process is a short-lived fork: nothing to undo
         self.idsim = IdSim()
         for name, m in list(sys.modules.items()):
             if m is not None and (name == "CircuitCalculator" or name.startswith("CircuitCalculator.")):
